@@ -218,6 +218,33 @@ class MarkClock(simnet.SimClock):
         return dc
 
 
+class RealisticAttempt(simnet.Attempt):
+    """A connection attempt that reports cancellation the way Twisted's stock endpoints do (TCP4ClientEndpoint,
+    HostnameEndpoint, the TLS wrappers): the canceller itself fails the Deferred with ConnectingCancelledError,
+    which is NOT a defer.CancelledError."""
+
+    def _cancelled(self, d):
+        from twisted.internet.error import ConnectingCancelledError
+        simnet.Attempt._cancelled(self, d)
+        d.errback(ConnectingCancelledError(simnet.SimAddress(self.host, self.port)))
+
+
+class RealisticEndpoint(simnet.PuppetEndpoint):
+    def connect(self, factory):
+        net = self.net
+        net._attempts += 1
+        a = RealisticAttempt(net, net._attempts, self.host, self.port, factory)
+        net.attempts.append(a)
+        net.log.append(("connect", a.attempt_id, self.host, self.port))
+        return a.d
+
+
+class RealisticNet(simnet.SimNet):
+    def __call__(self, reactor, host, port):
+        self.calls.append((host, port))
+        return RealisticEndpoint(self, host, port)
+
+
 class Policy(object):
     """retry policy with values that no request timeout can equal; remembers its arguments"""
 
@@ -240,7 +267,9 @@ class Impl(object):
         self.cfg = cfg
         self.log = []
         self.clock = MarkClock(self.log)
-        self.net = simnet.SimNet(self.log)
+        # cfg["cancel"]: how a cancelled connection attempt fails - "plain" (a bare Deferred: defer.CancelledError) or
+        # "connecting" (Twisted's endpoints: error.ConnectingCancelledError).  Not an input of the model: the code may not care.
+        self.net = RealisticNet(self.log) if cfg.get("cancel", "plain") == "connecting" else simnet.SimNet(self.log)
         self.policy = Policy()
         self.client = KafkaClient([(host_of(a), port_of(a)) for a in cfg["hosts"]], reactor=self.clock,
                                   endpoint_factory=self.net, retry_policy=self.policy, timeout=cfg["timeout"],
@@ -346,9 +375,12 @@ class Impl(object):
         def det_shuffle(lst):
             lst[:] = shuf(mode, list(lst))
         random.shuffle = det_shuffle
+        self._last_send = None
         try:
             if en:
                 self._do(ev)
+        except Exception as e:      # anything escaping the implementation is an observable, not a harness failure
+            self.log.append(("raised", 99, "%s: %s" % (type(e).__name__, str(e)[:120])))
         finally:
             random.shuffle = old
         log = list(self.log)
@@ -375,6 +407,10 @@ class Impl(object):
                 recs.append(self._record(("timer", t), lg, en, final=last))
         else:
             recs.append(self._record(ev, [e for e in log if e[0] != "fired"], en, final=True))
+        if self._last_send is not None:
+            bc, rid = self._last_send
+            recs[-1]["rid"] = rid
+            recs[-1]["bc"] = next((i for i, f in enumerate(self.bcs) if f is bc), None)
         self.records += recs
         return recs
 
@@ -416,6 +452,7 @@ class Impl(object):
             rid = c._next_id()
             req = header(API_DIRECT, 0, rid) + b"D"
             self.rid_kind.setdefault(rid, "direct")
+            self._last_send = (bc, rid)
             try:
                 d = c._make_request_to_broker(bc, rid, req, expectResponse=bool(expect),
                                               min_timeout=None if mint < 0 else mint / 1000.0)
@@ -550,7 +587,7 @@ class Impl(object):
             elif k == "closefired":
                 outs.append(("closefired",))
             elif k == "raised":
-                outs.append(("raised", e[1]))
+                outs.append(("raised", e[1]) + tuple(e[2:]))
             elif k == "abort":
                 outs.append(("abort", e[1]))
         return outs
@@ -700,6 +737,11 @@ class Gen(object):
         if k == "op":
             return ("op", rnd.choice([0, 1, 1, 1]), rnd.random() < 0.5)
         if k == "update":
+            live = [i for i in range(len(im.bcs)) if im.bc_transport(i) is not None]
+            if self.known and live and rnd.random() < 0.45:
+                # a full refresh that keeps most of the known brokers and drops one or two: retires connected broker clients
+                keep = [n for n in sorted(self.known) if rnd.random() < 0.7]
+                return ("update", [(n, self.known[n]) for n in keep] or [(rnd.randrange(NODES), rnd.randint(1, 9))], True)
             return ("update", self.some_brokers(), rnd.random() < 0.35)
         if k in ("close", "reset", "ok", "fail", "lost", "bootok", "bootfail", "bootlost"):
             return c
@@ -810,6 +852,7 @@ def random_cfg(rnd, dot=None):
             "dot": (rnd.random() < 0.5) if dot is None else dot,
             "mode": rnd.randrange(0, 8),
             "corr0": rnd.choice([0, 0, 0, 7, 2 ** 31 - 3, 2 ** 31 - 2]),
+            "cancel": rnd.choice(["plain", "connecting"]),
             "hosts": sorted(rnd.sample(range(1, 9), rnd.choice([1, 2, 2, 3])))}
 
 
@@ -828,6 +871,7 @@ def monitor(cfg, records, which=("C11", "C20")):
     closed = False
     closefired = 0
     findings = []
+    req_info = {}             # d -> (broker client, correlation id, expects a reply)
 
     def B(thm, msg):
         bad.append((thm, msg, idx))
@@ -840,6 +884,30 @@ def monitor(cfg, records, which=("C11", "C20")):
             if outs:
                 B("C11_late_reply_inert", "disabled event %r produced %r" % (ev, outs))
             continue
+        for o in outs:
+            if o[0] == "raised" and o[1] == 99:
+                thm = {"lost": "C11_disconnect_on_timeout", "ok": "C11_disconnect_on_timeout", "timer": "C11_bound",
+                       "reply": "C11_late_reply_inert", "close": "C20_pending_end"}.get(k, "C11_bound" if c11 else "C20_pending_end")
+                if thm[:3] not in which:
+                    thm = which[0] + thm[3:]
+                B(thm, "the implementation raised out of %r: %s" % (ev, o[2] if len(o) > 2 else "?"))
+        # ---- C10 lifted (C11_brokerclients_inv): a lost connection with unanswered requests is re-established,
+        #      and every unanswered request is written exactly once on the new connection, resolved ones never
+        if k == "lost" and not closed and c11:
+            mine = [d for d, (bi, _r, _x) in req_info.items() if bi == ev[1] and d not in req_res]
+            if mine and not any(o[0] == "connect" and o[1] == ev[1] for o in outs):
+                B("C11_disconnect_on_timeout", "connection of broker client %d lost with requests %r unanswered and no new attempt" % (ev[1], mine))
+        if k == "ok" and not closed and c11:
+            wr = [o[2] for o in outs if o[0] == "write" and o[1] == ev[1]]
+            for d, (bi, rid, _x) in req_info.items():
+                if bi != ev[1]:
+                    continue
+                n = wr.count(rid)
+                resolved_before = d in req_res
+                if not resolved_before and n != 1:
+                    B("C11_disconnect_on_timeout", "new connection of broker client %d: unanswered request %d (id %d) written %d times" % (ev[1], d, rid, n))
+                if resolved_before and n:
+                    B("C11_disconnect_on_timeout", "new connection of broker client %d: resolved request %d (id %d) written again" % (ev[1], d, rid))
         scheds = [o for o in outs if o[0] == "sched"]
         cancels = [o[1] for o in outs if o[0] == "cancel_timer"]
         netact = [o for o in outs if o[0] in ("connect", "write", "bootconnect", "bootwrite", "sched")]
@@ -884,6 +952,9 @@ def monitor(cfg, records, which=("C11", "C20")):
                 for o in outs:
                     if o[0] in ("connect", "write"):
                         req_bc[d] = o[1]
+                if rec.get("bc") is not None:
+                    req_bc[d] = rec["bc"]
+                    req_info[d] = (rec["bc"], rec.get("rid"), ev[2])
         if k == "op":
             p = nops
             nops += 1
